@@ -32,6 +32,10 @@ fn main() {
         "C07-random" => vcore::props::c07::run_random(&args, &mut rep),
         "C08-direct" => vcore::props::c07::run_c08_direct(&args, &mut rep),
         "C08-random" => vcore::props::c07::run_c08_random(&args, &mut rep),
+        "C05-closure" => vcore::props::closure::run_c05_component(&args, &mut rep),
+        "C05-closure-cli" => vcore::props::closure::run_c05_cli(&args, &mut rep),
+        "C10-closure" => vcore::props::closure::run_c10_component(&args, &mut rep),
+        "C17" => vcore::props::c17::run(&args, &mut rep),
         "C04-direct" => vcore::props::c04::run_direct(&args, &mut rep),
         "C04-cli" => vcore::props::c04::run_cli(&args, &mut rep),
         other => {
